@@ -497,7 +497,7 @@ ObsClause ==
 
 ObsOK == ObsClause = "ok"
 \* invariant part of the SyncLogger clause (the end of the iteration is the liveness property below)
-SyncOK == P!SyncClause(sync.samples, sync.yields, sync.disc, TRUE, sync.early,
+SyncOK == P!SyncClause(sync.samples, sync.samples, sync.yields, sync.disc, TRUE, sync.early,
                        sync.drained /\ sync.st = "stopped") = "ok"
 \* a consumer that keeps calling __next__ ends after the disconnect
 SyncEnds == (sync.disc /\ sync.st = "iter") ~> (sync.st = "stopped")
